@@ -175,6 +175,26 @@ def h_errors(E, case):
         return type(e).__name__
 
 
+LIMITS = {'2': 2, '-3': -3, '5/2': 2.5, '-1.5': -1.5, '1/2': 0.5, 'infty': INF, '-infty': -INF, '4.0': 4, '2+x-x': 2, '1/2+x-x': 0.5}
+
+
+def h_limit_pairs(E, lo, hi):
+    """every pairing of integer / non-integer / infinite limits typed by the student: a finite non-integer limit is refused whatever the other limit is,
+    inf..inf and -inf..-inf are refused, everything else is summed"""
+    from mitxgraders.exceptions import MITxError
+    from mitxgraders.formulagrader.integralgrader import SummationError
+    g, SX, SD = _grader(E)
+    vlo, vhi = LIMITS[lo], LIMITS[hi]
+    bad = any(abs(v) != INF and int(v) != v for v in (vlo, vhi)) or (vlo == vhi and abs(vlo) == INF)
+    try:
+        r = g(None, [lo, hi, '0*x+1/2^abs(n)', 'n'])
+    except SummationError:
+        E.check('non-integer-or-degenerate-limits-refused-all-others-summed', bad)
+        return 'refused'
+    E.check('non-integer-or-degenerate-limits-refused-all-others-summed', not bad)
+    return str(r['ok'])
+
+
 AUTHOR_BAD = {'div-by-zero': {'lower': '0', 'upper': '2', 'summand': '1/n', 'summation_variable': 'n'},
               'noninteger': {'lower': '0.5', 'upper': '2', 'summand': 'n', 'summation_variable': 'n'},
               'undefined': {'lower': '0', 'upper': '2', 'summand': 'n*zz', 'summation_variable': 'n'}}
@@ -218,6 +238,9 @@ def harnesses(tier):
         for wrong in (None, 'lower', 'summand'):
             add(h_positions, 'positions', dict(subset=''.join('1' if b else '0' for b in subset), order=sum(subset), wrong=wrong), 'subset of student-entered fields')
             hs[-1].params = (subset, sum(subset), wrong)
+    for lo in LIMITS:
+        for hi in LIMITS:
+            add(h_limit_pairs, 'limit_pairs', dict(lo=lo, hi=hi), 'student-typed limits; symbolic samples')
     for case in ERRS:
         add(h_errors, 'errors', dict(case=case), 'symbolic samples')
     for case in AUTHOR_BAD:
